@@ -47,9 +47,10 @@ class PBSPro(ResourceManager):
                 raise RuntimeError('resource configuration unknown, either '
                                    'cores_per_node or $PBS_NODEFILE not set')
 
+            # `cores_per_node` is configured in hardware threads (SMT is
+            # already accounted for), same as `ncpus` of the vnodes above
             nodes = self._parse_nodefile(os.environ['PBS_NODEFILE'],
-                                         cpn=rm_info.cores_per_node,
-                                         smt=rm_info.threads_per_core)
+                                         cpn=rm_info.cores_per_node)
 
         rm_info.node_list = self._get_node_list(nodes, rm_info)
 
